@@ -303,6 +303,41 @@ def _replay_cache_all(path, cls):
         return dict(confirmed=False, raised=repr(e)[:300])
 
 
+def _beam_section_swap():
+    """dynamic beam simulation: assemble, replace the cross-section by one of another area, assemble again: mass matrix vs a fresh simulation built with the new section."""
+    import contextlib, io
+    from EasyFEA import Models, Simulations, Mesher, ElemType
+    from EasyFEA.Geoms import Domain, Point, Line
+    with contextlib.redirect_stdout(io.StringIO()):
+        s1 = Mesher().Mesh_2D(Domain(Point(), Point(0.1, 0.2)))
+        s2 = Mesher().Mesh_2D(Domain(Point(), Point(0.3, 0.2)))
+        line = Line(Point(0, 0), Point(2.0, 0.0), 0.5)
+
+        def mk(sect):
+            beam = Models.Beam.Isotropic(2, line, sect, 210e3, v=0.3)
+            mesh = Mesher().Mesh_Beams([beam], elemType=ElemType.SEG2)
+            sm = Simulations.Beam(mesh, beam)
+            sm.rho = 7.8
+            sm.Solver_Set_Hyperbolic_Algorithm(0.1)
+            return sm, beam
+        sm, beam = mk(s1)
+        sm.Get_K_C_M_F()
+        beam.section = s2
+        M1 = sm.Get_K_C_M_F()[2].toarray()
+        K1 = sm.Get_K_C_M_F()[0].toarray()
+        fr, _ = mk(s2)
+        K2, _, M2, _ = fr.Get_K_C_M_F()
+    return max(float(np.abs(M1 - M2.toarray()).max() / np.abs(M2.toarray()).max()), float(np.abs(K1 - K2.toarray()).max() / np.abs(K2.toarray()).max()))
+
+
+def ob_beam_section_swap():
+    e = _beam_section_swap()
+    if e > 1e-10:
+        raise Refuted(f"beam simulation: after the cross-section of a beam is replaced by one of another area the assembled K / M differ from a fresh simulation's by {e:.3e} (relative)",
+                      signature="history:beam:section", replay=dict(confirmed=True, rel_diff=e))
+    return Verdict(DISCHARGED, backend="native run vs fresh simulation")
+
+
 def ob_cache_foreign():
     """a @cache_computed_values method (and what it calls on self) must not read the state of ANOTHER object through self -- `self.<object>.<attribute>` with
     <object> a public attribute or property (model, material, mesh, ...): the memo key cannot see such state and a change of it only raises the update flag of
@@ -331,6 +366,45 @@ def ob_cache_foreign():
             for which, fn, decs in by[m]:
                 if which == "setter":
                     continue
+                # objects reached through a collection kept by self (`for beam in self.__beams`, `[b.Get_M() for b in listBeam]` with `listBeam = self.__beams`): their
+                # attributes are another object's state just as `self.<object>.<attribute>` is
+                held, members = set(), set()
+                for node in ast.walk(fn.node):
+                    if isinstance(node, ast.Assign) and len(node.targets) == 1 and isinstance(node.targets[0], ast.Name) and isinstance(node.value, ast.Attribute) \
+                            and isinstance(node.value.value, ast.Name) and node.value.value.id == "self":
+                        held.add(node.targets[0].id)
+                def _from_self(it):
+                    if isinstance(it, ast.Attribute) and isinstance(it.value, ast.Name) and it.value.id == "self":
+                        return True
+                    if isinstance(it, ast.Name) and it.id in held:
+                        return True
+                    if isinstance(it, ast.Call) and isinstance(it.func, ast.Name) and it.func.id in ("zip", "enumerate", "list", "tuple", "sorted", "reversed"):
+                        return any(_from_self(a_) for a_ in it.args)
+                    return False
+                def _targets(t, positions=None):
+                    return [x.id for x in ast.walk(t) if isinstance(x, ast.Name)]
+                for node in ast.walk(fn.node):
+                    its = []
+                    if isinstance(node, ast.For):
+                        its.append((node.target, node.iter))
+                    elif isinstance(node, (ast.ListComp, ast.GeneratorExp, ast.SetComp, ast.DictComp)):
+                        its += [(g_.target, g_.iter) for g_ in node.generators]
+                    for tgt, it in its:
+                        if _from_self(it):
+                            if isinstance(it, ast.Call) and it.func.id == "zip" and isinstance(tgt, ast.Tuple):
+                                for t_, a_ in zip(tgt.elts, it.args):
+                                    if _from_self(a_):
+                                        members.update(_targets(t_))
+                            elif isinstance(it, ast.Call) and it.func.id == "enumerate" and isinstance(tgt, ast.Tuple) and len(tgt.elts) == 2:
+                                members.update(_targets(tgt.elts[1]))
+                            else:
+                                members.update(_targets(tgt))
+                for node in ast.walk(fn.node):
+                    if isinstance(node, ast.Attribute) and isinstance(node.value, ast.Name) and node.value.id in members and isinstance(node.ctx, ast.Load):
+                        raise Refuted(f"{cls}.{m} is reached from the @cache_computed_values methods {cached} and reads `{node.value.id}.{node.attr}` (line {node.lineno}) where `{node.value.id}` runs over a "
+                                      f"collection kept by self: state of other objects that the memo key does not contain; changing it leaves the memoised value stale",
+                                      cex=dict(cls=cls, method=m, read=f"{node.value.id}.{node.attr}", line=node.lineno), signature=f"I_cache.foreign:{cls}:member.{node.attr}",
+                                      replay=_replay_foreign(cls, node.value.id, node.attr))
                 for node in ast.walk(fn.node):
                     n += 1
                     if isinstance(node, ast.Attribute) and isinstance(node.value, ast.Attribute) and isinstance(node.value.value, ast.Name) and node.value.value.id == "self" \
@@ -354,6 +428,9 @@ def _replay_foreign(cls, obj, att):
                 sm.material.thickness = 5.0
                 return dict(thickness=5.0)
             e = _he_mass(ch)
+            return dict(confirmed=bool(e > 1e-10), mass_rel_diff=e)
+        if cls == "BeamStructure":
+            e = _beam_section_swap()
             return dict(confirmed=bool(e > 1e-10), mass_rel_diff=e)
         return dict(confirmed=False, note="no native witness is generated for this read; the obligation that passed on the unchanged tree now fails")
     except Exception as ex:
@@ -1018,6 +1095,8 @@ def build(tier, seed):
     for sim in ("WeakForms", "Elastic", "Beam", "HyperElastic"):
         obs.append(Ob(f"C14.history.restore.scheme.{sim}", ob_restore_after_scheme_switch, (sim,), "X", (f"EasyFEA/Simulations/_{sim.lower()}.py::{sim}.Set_Iter", f"EasyFEA/Simulations/_{sim.lower()}.py::{sim}.Save_Iter"),
                       bound="one small mesh, every ordered pair of time schemes the simulation accepts", clause="switching the time scheme then restoring an earlier iteration works and brings back the stored unknown", timeout=300))
+    obs.append(Ob("C14.history.beam.section", ob_beam_section_swap, (), "X", ("EasyFEA/Models/Beam/_beam.py::BeamStructure.Calc_M_e_pg", "EasyFEA/Models/Beam/_beam.py::_Beam.section[setter]"), bound="one 4-element beam",
+                  clause="replacing the cross-section of a beam (another area): K and M == fresh simulation's", timeout=300))
     obs.append(Ob("C14.history.mesh.inDim", ob_mesh_indim, (), "X", (f"{MESH}::Mesh.inDim",), bound="one patch", clause="inDim after an out-of-plane rotation == a fresh mesh's"))
     obs.append(Ob("C14.I_cache.key", ob_cache_key, (), "B", ("EasyFEA/Utilities/_cache.py::cache_computed_values", "EasyFEA/Utilities/_cache.py::clear_cached_computed_values"),
                   bound="7 call spellings x all ordered pairs x 2 receivers x 2 signatures", clause="the memoised wrapper returns what the function returns, for every call sequence; clear drops the memo"))
